@@ -69,9 +69,10 @@ theorem rejects_out_of_range_partial (f : Form) (y mo d h mi s : Int) (nd : Nat)
     (ts : TS) (hy : 0 ≤ y ∧ y ≤ 9999) (hmo : 0 ≤ mo ∧ mo < 100) (hd : 0 ≤ d ∧ d < 100) (hh : 0 ≤ h ∧ h < 100)
     (hmi : 0 ≤ mi ∧ mi < 100) (hs : 0 ≤ s ∧ s < 100) (hnd : nd ≤ 9) (hf : 0 ≤ frac ∧ frac < 10 ^ nd)
     (hoh : 0 ≤ oh ∧ oh < 100) (hom : 0 ≤ om ∧ om < 100)
-    (hrej : mustReject iersLeapDates ⟨y, mo, d⟩ h mi s (fracNs nd frac) = true ∨ h = 24)
+    (hrej : mustReject iersLeapDates ⟨y, mo, d⟩ h mi (if s = 60 then 59 else s) (fracNs nd frac) = true ∨ h = 24)
     (hD10 : Cal.d10class y mo d = false) :
-    Txt.fromGregorianStrIdx (renderText f ⟨y, mo, d⟩ h mi s nd frac neg oh om ts.name) = .err :=
+    Txt.fromGregorianStrIdx (renderText f ⟨y, mo, d⟩ h mi s nd frac neg oh om ts.name) = .err ∧
+    ∀ dur, Txt.epochFromStrWith dur (renderText f ⟨y, mo, d⟩ h mi s nd frac neg oh om ts.name) = .err :=
   C13Epoch.rejects_out_of_range_partial f y mo d h mi s nd frac neg oh om ts hy hmo hd hh hmi hs hnd hf hoh hom hrej hD10
 
 /-- the same clause through `Format::parse`: decided instances (month 13, day 32, hour 25, minute 60,
